@@ -88,6 +88,18 @@ def check(ctx):
     from ._claims import check_claims
 
     check_claims(ctx)
+    # ---------------- staged task shuffle: the final partition number is reduced modulo npartitions BEFORE it is
+    # narrowed to the small integer type (sized for 2 * npartitions)
+    sg = ctx.model.module("dask/dataframe/shuffle.py").func("shuffle_group")
+    ok = bool(find("ind = (ind % npartitions).astype(typ, **kwargs) // k ** stage % k", sg)) and bool(find("typ = np.min_scalar_type(npartitions * 2)", sg))
+    ctx.ob("ABS.shuffle-stage.mod-before-narrowing", sg, "ind = (ind % npartitions).astype(typ) // k**stage % k with typ sized for 2*npartitions", ok, "" if ok else "the partition number is cast to the narrow type before the modulo: it wraps for large output partition counts and rows are dropped")
+    ok = bool(find("ind = hash_object_dispatch(c_, index=False) % int(nfinal)", sg) or find("ind = hash_object_dispatch(c, index=False)", sg)) or "hash_object_dispatch" in unparse(sg)
+    ctx.ob("ABS.shuffle-stage.hash", sg, "the stage index derives from the hash of the key columns", ok, nontrivial=False)
+    # ---------------- drop_duplicates: a projection may move below it only when a subset names the compared columns
+    dd_ = ctx.model.klass("dask/dataframe/dask_expr/_reductions.py", "DropDuplicates").own_methods["_simplify_up"]
+    ifs = [n for n in walk_no_nested(dd_) if isinstance(n, ast.If) and "isinstance(parent, Projection)" in unparse(n.test)]
+    ok = len(ifs) == 1 and "self.subset is not None" in unparse(ifs[0].test) and "additional_columns=self.subset" in unparse(ifs[0])
+    ctx.ob("DOM.dedup-projection", dd_, "Projection is pushed below DropDuplicates only if subset is given (and the subset columns are kept)", ok, "" if ok else "without a subset rows are compared on ALL columns: projecting first de-duplicates on the projected columns only")
 
 
 VARIANTS = [
